@@ -148,25 +148,27 @@ def adjust_moisture_content(retentate, permeate, moisture_content, ID=None, stri
     if ID is None: 
         ID = CAS_water
         MW = 18.01528
-        retentate_water = retentate.imol[ID]
+        key = ('l', ID) if isinstance(retentate, tmo.MultiStream) else ID
+        retentate_water = retentate.imol[key]
         dry_mass = F_mass - MW * retentate_water
-        key = ('l', ID) if isinstance(retentate, tmo.MultiStream) else ID
         retentate.imol[key] = water = (dry_mass * mc/(1-mc)) / MW    
-        key = ('l', ID) if isinstance(retentate, tmo.MultiStream) else ID
+        retentate_key = key
+        key = ('l', ID) if isinstance(permeate, tmo.MultiStream) else ID
         permeate.imol[key] -= water - retentate_water
     else:
-        retentate_moisture = retentate.imass[ID]
+        key = ('l', ID) if isinstance(retentate, tmo.MultiStream) else ID
+        retentate_moisture = retentate.imass[key]
         dry_mass = F_mass - retentate_moisture
-        key = ('l', ID) if isinstance(retentate, tmo.MultiStream) else ID
         retentate.imass[key] = moisture = dry_mass * mc/(1-mc)
-        key = ('l', ID) if isinstance(retentate, tmo.MultiStream) else ID
+        retentate_key = key
+        key = ('l', ID) if isinstance(permeate, tmo.MultiStream) else ID
         permeate.imass[key] -= moisture - retentate_moisture
     if permeate.imol[key] < 0:
         if strict is None: strict = True
         if strict:
             raise InfeasibleRegion(f'not enough {ID}; permeate moisture content')
         else:
-            retentate.imol[key] -= permeate.imol[key]
+            retentate.imol[retentate_key] += permeate.imol[key]
             permeate.imol[key] = 0.
 
 def mix_and_split(ins, top, bottom, split):
